@@ -132,7 +132,7 @@ var items = []string{
 	"<iq type='set' id='y'><q xmlns='urn:example:q'><?pi?></q></iq>",
 	"<b><stream:error><reset xmlns='urn:ietf:params:xml:ns:xmpp-streams'/></stream:error><c/></b>",
 	" ", "\n\t",
-	"<!-- c -->", "<?pi x?>", "<!DOCTYPE x>", "junk",
+	"<!-- c -->", "<?pi x?>", "<!DOCTYPE x>", "junk", " \u00a0",
 	"<stream:error><host-gone xmlns='urn:ietf:params:xml:ns:xmpp-streams'/></stream:error>",
 	"<stream:features/>", "<stream:stream>", "</stream:stream>", "<a><b>",
 }
@@ -352,8 +352,8 @@ func main() {
 			x.randomReader(r)
 		}
 	}
-	res.Rule = "inputs: corpus; exhaustive small scope (all sequences of up to 2 (thorough: 3) items from 18 kinds of top-level input " +
-		"— stanzas, other elements, elements holding comments / PIs / stream errors, keep-alives, comment, PI, directive, text, " +
+	res.Rule = "inputs: corpus; exhaustive small scope (all sequences of up to 2 (thorough: 3) items from 19 kinds of top-level input " +
+		"— stanzas, other elements, elements holding comments / PIs / stream errors, keep-alives, comment, PI, directive, text, non-ASCII white space, " +
 		"stream error, stream features, restart, close, truncated element — with and without closing tag x 9 handler consumption patterns); " +
 		"seeded random scripts of 1-5 items with element trees of depth 0-3 and a drawn handler program per element (partial writes included); " +
 		"the stream reader alone on random documents with and without websocket framing; distinct = hash of the case; " +
